@@ -21,7 +21,7 @@ import core
 PRELUDE = '''From Coq Require Import ZArith QArith Qminmax List Bool.
 From DK Require Import Num NumQ Vec.
 From DK.Gen Require Import Kernels.
-From DK.Model Require Import Leaf Fn Dev Tree Projection PyOps SetOps FnOps ConOps Solve SolveOps ProbeEnc.
+From DK.Model Require Import Leaf Fn Dev Tree Projection PyOps SetOps FnOps ConOps Solve SolveOps NpOps ProbeEnc.
 Require DK.Gen.Classes.
 Require DK.Gen.%(name)s.
 Require DKC.%(name)sNew.
@@ -202,8 +202,14 @@ BATTERIES['Solve'] = [
            '[(true, 0%Z, 4%nat, true, 0%Z, [1#2], 1); (true, 0%Z, 4%nat, true, 0%Z, [1], 2); (false, 8%Z, 4%nat, true, 0%Z, [1#4], 1#2); (false, 4%Z, 4%nat, true, 0%Z, [1#2], 1); (false, 9%Z, 4%nat, true, 0%Z, [1#2], 1); '
            '(true, 0%Z, 3%nat, true, 0%Z, [1#2], 1); (true, 0%Z, 4%nat, false, 8%Z, [3#4], 1); (true, 0%Z, 4%nat, false, 5%Z, [1#2], 1); (true, 0%Z, 4%nat, true, 0%Z, [], 1); (true, 0%Z, 4%nat, true, 0%Z, [1#2; 1], 1); (true, 0%Z, 4%nat, true, 0%Z, [0], 3)])'),
 ]
+BATTERIES['Utils'] = [
+  ('power_matrix', 'List.concat (map (fun l => List.concat (map (fun row => map (fun k => inject_Z (Z.of_nat k)) row) (@M@.power_matrix_gen l))) [0%nat; 1%nat; 2%nat; 3%nat; 5%nat])'),
+  ('sustainment_matrix', 'List.concat (map (fun s => List.concat (map (fun l => enc_m (@M@.sustainment_matrix_gen s l)) [0%nat; 1%nat; 2%nat; 4%nat])) [1; 1#2; 3#4; 0; 2])'),
+  ('base_soc', 'List.concat (map (fun s => enc_v (@M@.base_soc_gen (5#2) s 4) ++ enc_v (@M@.base_soc_gen (-1) s 1) ++ enc_v (@M@.base_soc_gen 3 s 0)) [1; 1#2; 3#4])'),
+  ('soc', 'List.concat (map (fun se => List.concat (map (fun r => enc_v (@M@.soc_gen r (fst se) (snd se))) [va; vb; vc; [-3; 2; -3; 0; 1]; [1#2]; []])) [(1, 1); (1#2, 3#4); (3#4, 1#2); (1, 1#2); (1#2, -2)])'),
+]
 EXTRA = {'Solve': SOLVE, 'Constraints': KIDS + CONS, 'DeviceSet': KIDS, 'MFDeviceSet': KIDS, 'Functions': KIDS}
-NAMES = {'projection': 'Projection', 'thermal': 'Thermal', 'deviceset': 'DeviceSet', 'mfdeviceset': 'MFDeviceSet', 'functions': 'Functions', 'classes': 'Classes', 'storage': 'Storage', 'constraints': 'Constraints', 'solve': 'Solve'}
+NAMES = {'projection': 'Projection', 'thermal': 'Thermal', 'deviceset': 'DeviceSet', 'mfdeviceset': 'MFDeviceSet', 'functions': 'Functions', 'classes': 'Classes', 'storage': 'Storage', 'constraints': 'Constraints', 'solve': 'Solve', 'utils': 'Utils'}
 
 
 def supported(w):
